@@ -20,10 +20,19 @@ def sec13():
     return "\n".join(out)
 
 def sec15():
-    out = ["| seeded change (dir under /verif/seeded) | breaks | needs to manifest | result of `./check` on the patched tree |\n|---|---|---|---|"]
+    out = ["| seeded change (dir under /verif/seeded) | breaks | needs to manifest | result of `./check` on the patched tree | re-run against the final checks (`tools/reseed.sh`) |\n|---|---|---|---|---|"]
     for d in sorted(glob.glob(R + "/seeded/*/meta.json")):
         m = json.load(open(d))
-        out.append("| `%s` | %s | %s | %s |" % (os.path.basename(os.path.dirname(d)), m["breaks_property"], m["needs_to_manifest"].replace("|", "\\|"), m["result"].replace("|", "\\|")))
+        rc = os.path.join(os.path.dirname(d), "recheck.json")
+        rr = ""
+        if os.path.exists(rc):
+            r = json.load(open(rc))
+            rr = "%s at %s" % (r.get("result", ""), r.get("repo_head", ""))
+            if r.get("result") == "PATCH-NO-LONGER-APPLIES":
+                rr = "patch no longer applies at %s (the patched lines were changed by a later `fix:` commit); the original run stands" % r.get("repo_head", "")
+            elif r.get("first"):
+                rr += ": `%s`" % r["first"].strip().replace("first failing input: ", "").replace("|", "\\|")[:110]
+        out.append("| `%s` | %s | %s | %s | %s |" % (os.path.basename(os.path.dirname(d)), m["breaks_property"], m["needs_to_manifest"].replace("|", "\\|"), m["result"].replace("|", "\\|"), rr))
     return "\n".join(out)
 
 def sec12b():
